@@ -43,6 +43,15 @@ pub fn install() {
                             break;
                         }
                     }
+                    // inlined frames only show up as "at <file>:<line>:<col>"
+                    if let Some(rest) = l.strip_prefix("at ") {
+                        if in_repo(rest) {
+                            let mut it = rest.rsplitn(3, ':');
+                            let _col = it.next(); let line = it.next().and_then(|x| x.parse::<u32>().ok()).unwrap_or(0); let file = it.next().unwrap_or(rest);
+                            pdf_frame = Some(format!("{}::{}", rel_file(file), enclosing_fn(file, line)));
+                            break;
+                        }
+                    }
                 }
             }
             LAST.with(|l| *l.borrow_mut() = Some(PanicRec { file, line, msg, pdf_frame }));
